@@ -174,9 +174,18 @@ func RenderXML(d *XDialect) string {
 	if len(d.Enums) > 0 {
 		sb.WriteString("  <enums>\n")
 		for _, e := range d.Enums {
+			// the attribute is an xs:boolean: "true" / "1" and "false" / "0" (or absent) are the same declarations
 			bm := ""
 			if e.Bitmask {
 				bm = ` bitmask="true"`
+				if noise(2) {
+					bm = ` bitmask="1"`
+				}
+			} else if noise(3) {
+				bm = ` bitmask="false"`
+				if noise(2) {
+					bm = ` bitmask="0"`
+				}
 			}
 			fmt.Fprintf(&sb, "    <enum name=%q%s>\n      <description>enum %s.</description>\n", e.Name, bm, e.Name)
 			if noise(4) {
